@@ -233,11 +233,37 @@ def distribution(cases, impl):
     return {"recipient_kinds": dict(h)}
 
 
+def _valid(evs):
+    """S/X events must refer to requests / handles that exist at that point"""
+    ref = Ref()
+    for ev in evs:
+        p = ev.split(":")
+        try:
+            if p[0] == "S":
+                h = ref.held[int(p[1])]
+                if not (h["alive"] and not h["moved"] and h["key"] is not None and h["method"] == "INVITE"):
+                    return False
+            elif p[0] == "X":
+                w = p[1]
+                if w[0] in "ha" and int(w[1:]) >= len(ref.held):
+                    return False
+                if w[0] == "a" and not ref.held[int(w[1:])]["moved"]:
+                    return False
+                if w[0] == "c" and w[1:] not in ref.clients:
+                    return False
+            elif p[0] == "M" and p[5].startswith("@") and p[5][1:] not in ref.clients:
+                return False
+        except (IndexError, ValueError):
+            return False
+        _apply(ref, ev)
+    return True
+
+
 def shrink_candidates(case):
     evs = case[2].split(",")
     out = []
     for i in range(len(evs)):
         rest = evs[:i] + evs[i + 1:]
-        if rest:
+        if rest and _valid(rest):
             out.append([case[0], case[1], ",".join(rest)])
     return out
